@@ -217,6 +217,34 @@ func (s *State) copyElems(et types.Type, path []int, dst, src Val, n string) {
 
 func (s *State) goStmt(x *ssa.Go) {
 	s.c.assumed["go statement at "+s.c.eng.posOf(x)+": goroutine body verified separately; spawner continues as if it had not yet run"] = true
+	mc, ok := x.Call.Value.(*ssa.MakeClosure)
+	if !ok {
+		return
+	}
+	fn := mc.Fn.(*ssa.Function)
+	key := s.c.eng.fnKey(fn)
+	con := s.c.eng.contracts.Funcs[key]
+	if con == nil {
+		return
+	}
+	// the goroutine body's preconditions (over its captured variables) must hold where it is spawned
+	vars := map[string]Val{}
+	for i, fv := range fn.FreeVars {
+		if i < len(mc.Bindings) {
+			b := s.valOf(mc.Bindings[i])
+			if a := s.ptrAddr(b); a != nil && derefType(b.T) != nil {
+				vars[fv.Name()] = s.pureLoad(a)
+			} else {
+				vars[fv.Name()] = b
+			}
+		}
+	}
+	for i, rq := range con.Requires {
+		xc := &EvalCtx{s: s, vars: vars, pkg: pkgOf(fn)}
+		v := xc.eval(rq.Expr)
+		s.c.specErrors(xc, rq.Where)
+		s.oblige("pre:"+key, x, s.c.ordinal(x, "pre:"+key)*100+i+1, v.S, "precondition of the goroutine body "+key+" at its go statement: "+rq.Src, false)
+	}
 }
 
 // joinedGo: the enclosing function joins its goroutines with a WaitGroup; under the disjointness obligations of
@@ -307,7 +335,7 @@ func (s *State) runeElems(base string) string {
 }
 
 func (s *State) declRunePreds() {
-	for _, p := range []string{"runesNoNL", "runesClean"} {
+	for _, p := range []string{"runesNoNL", "runesClean", "runesDigits"} {
 		s.c.declare(p, fmt.Sprintf("(declare-fun %s ((Array Int Int)) Bool)", p))
 	}
 }
@@ -324,6 +352,7 @@ func (s *State) libRunesToString(x Val, to types.Type) Val {
 	inner := s.runeElems(x.Sl.Base)
 	s.assume(implies(app("runesNoNL", inner), app("noNL", r.S)))
 	s.assume(implies(app("runesClean", inner), app("clean", r.S)))
+	s.assume(implies(app("runesDigits", inner), app("digits", r.S)))
 	s.assume(implies(and(app("runesNoNL", inner), app("runesClean", inner)), eq(app("vlen", r.S), x.Sl.Len)))
 	s.assume(implies(eq(x.Sl.Len, "0"), eq(r.S, "emp")))
 	return r
@@ -352,6 +381,7 @@ func (s *State) libStringToRunes(x Val, to types.Type) Val {
 	s.heapSet(key, srt, sto(s.heapGet(key, srt), b, inner))
 	s.assume(implies(app("noNL", x.S), app("runesNoNL", inner)))
 	s.assume(implies(app("clean", x.S), app("runesClean", inner)))
+	s.assume(implies(app("digits", x.S), app("runesDigits", inner)))
 	s.assume(implies(app("clean", x.S), eq(n, app("+", app("vlen", x.S), app("nl", x.S)))))
 	s.assume(implies(eq(x.S, "emp"), eq(n, "0")))
 	s.assume(implies(app(">=", app("blen", x.S), "1"), app(">=", n, "1")))
@@ -373,7 +403,7 @@ var pureExternals = map[string]bool{
 	"net/url.Parse": true, "(*net/url.URL).String": true, "(*net/url.URL).ResolveReference": true, "(*net/url.URL).Hostname": true, "(*net/url.URL).Port": true, "(*net/url.URL).RequestURI": true,
 	"(net/url.Values).Encode": true, "net.JoinHostPort": true,
 	"(*regexp.Regexp).FindStringSubmatch": true, "(*regexp.Regexp).FindAllStringSubmatch": true, "(*regexp.Regexp).ReplaceAllString": true, "regexp.MustCompile": true,
-	"os.Getenv": true, "os.Open": true, "(github.com/BurntSushi/toml.MetaData).Undecoded": true, "(*github.com/BurntSushi/toml.MetaData).Undecoded": true, "(*os.File).WriteString": true,
+	"os.Getenv": true, "os.Open": true, "(*os/exec.Cmd).CombinedOutput": true, "(github.com/BurntSushi/toml.MetaData).Undecoded": true, "(*github.com/BurntSushi/toml.MetaData).Undecoded": true, "(*os.File).WriteString": true,
 }
 
 func (e *Engine) initLib() {
